@@ -15,6 +15,30 @@ from checks import cpusafe
 WDM_OPCODE = 66
 
 
+def failing_lemma(vfile, out):
+    """name of the lemma a coqc error belongs to: '(in proof X)' if Coq says so, else the last Lemma/Theorem/Example
+    that starts at or before the reported line"""
+    import re
+    m = re.search(r"\(in proof (\w+)\)", out)
+    if m:
+        return m.group(1)
+    m = re.search(r'line (\d+), characters', out)
+    if not m:
+        return ""
+    line = int(m.group(1))
+    name = ""
+    try:
+        for i, l in enumerate(open(vfile), 1):
+            if i > line:
+                break
+            mm = re.match(r"(?:Lemma|Theorem|Example|Corollary|Definition) (\w+)", l)
+            if mm:
+                name = mm.group(1)
+    except OSError:
+        pass
+    return name
+
+
 def generate(path, mod):
     M = cpusafe.Model(path, mod)
     out = [HEADER % {"mod": mod}]
@@ -62,7 +86,7 @@ def generate(path, mod):
     step = M.byname["Step"]
     step_call = call(step, "| |- pres _ (tbl_proc _ _) => eapply quiet_tbl_proc; [ eassumption | ]")
     out.append(EXACT % {"unf": " ".join(sorted(unf)), "mod": mod, "wdm": WDM_OPCODE})
-    lemmas += ["ex_nRead", "ex_cmdRead_imm", "ex_op_wdm", "step_cb_" + mod, "C12_callbacks_" + mod, "C12_callbacks_run_" + mod]
+    lemmas += ["ex_nRead", "ex_cmdRead_imm", "ex_op_wdm", "step_cb_" + mod, "C12_callbacks_" + mod, "C12_callbacks_wdm_" + mod, "C12_callbacks_run_" + mod]
     files = {"C12_cbq_%s" % mod: "\n".join(out),
              "C12_cbs_%s" % mod: STEP_HEADER % {"mod": mod} + STEP % {"mod": mod, "call": step_call, "wdm": WDM_OPCODE},
              "C12_cb_%s" % mod: THM_HEADER % {"mod": mod} + THEOREMS % {"mod": mod, "wdm": WDM_OPCODE}}
@@ -298,6 +322,13 @@ Theorem C12_callbacks_%(mod)s_explicit : forall s, Inv (Bty fwidth) s -> forall 
     (opcode = 66 -> tC = wdm ++ [EvR a1 v; EvR a opcode] /\\ get f_WDM s' = v).
 Proof. exact C12_callbacks_%(mod)s. Qed.
 
+(* the last sentence of the property as worded: whenever the WDM callback ran in a step (it is then the newest recorded
+   event) it received exactly the byte just read from the operand address PBR:PC+1 (in-bank wrap); the WDM field holds it *)
+Theorem C12_callbacks_wdm_%(mod)s : forall s, Inv (Bty fwidth) s -> forall r s', Step s = Ok r s' ->
+  forall v, hd_error (trace s') = Some (EvWDM v) ->
+  exists rest, trace s' = EvWDM v :: EvR (get f_PRK s' * 65536 + (get f_PPC s' + 1) mod 65536) v :: rest /\\ get f_WDM s' = v.
+Proof. intros s Hi r s' HS. exact (callbacks_clause_wdm f_PPC f_PRK f_WDM s s' (C12_callbacks_%(mod)s s Hi r s' HS)). Qed.
+
 (* the contract of Props/CbLib.v, section Runs *)
 Lemma good_step_%(mod)s : forall s r s', Inv (Bty fwidth) s -> Step s = Ok r s' -> Inv (Bty fwidth) s'.
 Proof. intros s r s' Hi HS. pose proof (C08_%(mod)s.C08_step_%(mod)s s Hi) as H8. rewrite HS in H8. exact H8. Qed.
@@ -361,6 +392,6 @@ Example ex_step : exists pushes, ex_obs =
   /\\ cbs pushes = [] /\\ onpc ex_state 4660 = true /\\ onpc ex_state 32768 = false.
 Proof. eexists. split; [vm_compute; reflexivity|]. split; [reflexivity|]. split; reflexivity. Qed.
 
-Definition C12_callbacks_all_%(mod)s := (C12_callbacks_%(mod)s, C12_callbacks_%(mod)s_explicit, C12_callbacks_run_%(mod)s, ex_good, ex_step).
+Definition C12_callbacks_all_%(mod)s := (C12_callbacks_%(mod)s, C12_callbacks_%(mod)s_explicit, C12_callbacks_wdm_%(mod)s, C12_callbacks_run_%(mod)s, ex_good, ex_step).
 Print Assumptions C12_callbacks_all_%(mod)s.
 """
